@@ -62,6 +62,7 @@ fn random(a: &Args) {
     let funnel: usize = a.num("funnel", 0);
     let chain: usize = a.num("chain", 0);
     for k in 0..count + funnel + chain {
+        shredh::unwind::set(rng.gen_bool(a.num("punwind", 0.1)));
         if k >= count {
             let prog = if k >= count + funnel { shredh::prog::gen_chain(&mut rng) } else { shredh::prog::gen_funnel(&mut rng) };
             let mut res = Vec::new();
@@ -137,6 +138,7 @@ fn replay_chunk(lines: &[String], first_no: usize, seed: u64, variants: usize, k
         // all variants of one behaviour are kept or dropped together (variant 0 is the
         // reference of the C19 comparison in ShredTrace)
         let sample_this = acc.written < keep && rng.gen_bool(0.01);
+        shredh::unwind::set(rng.gen_bool(0.02));
         let mut buf: Vec<Value> = Vec::new();
         let mut any_drift = false;
         for v in 0..variants {
@@ -239,6 +241,7 @@ fn sendable(a: &Args) {
     base.max_depth = 2;
     let (mut with_tl, mut nev) = (0usize, 0usize);
     for k in 0..count {
+        shredh::unwind::set(rng.gen_bool(0.1));
         let mut cfg = base.clone();
         cfg.p_tl = *[0.0, 0.0, 0.05, 0.3].get(rng.gen_range(0..4)).unwrap();
         let prog = gen_prog(&mut rng, &cfg, 0, "");
